@@ -473,6 +473,9 @@ func runC18(a *Analyzer, r *Results) {
 				n++
 				c := a.NewFCtx(f, a.EntryEnv(f, nil), 0)
 				lt := c.Term(call.Call.Args[5])
+				if lt.Contains(func(t *Term) bool { return t.Op == "root" }) {
+					continue // handed through from a caller: judged on the call paths (ingest, same rule id)
+				}
 				ig := &ingest{a: a, k: k, r: r}
 				r.Check("I4.closure", pr, "the leader function handed to ValidatePreparedProof is LeaderOf over the term's committee", shortName(f), a.P.InstrPos(in), ig.isLeaderClosure(lt), "argument is "+PP(lt), "A")
 			}
